@@ -7,8 +7,10 @@
 
 simsys::interpose!();
 
+mod conc;
 mod dur;
 mod gen;
+mod hsc;
 mod model;
 mod runner;
 mod values;
@@ -21,6 +23,8 @@ use std::io::{BufRead, Write};
 #[serde(tag = "scenario", rename_all = "snake_case")]
 pub enum AnyCase {
     Dur(dur::Case),
+    Conc(conc::ConcCase),
+    Hsc(hsc::HCase),
 }
 
 static PANIC_MSG: std::sync::Mutex<Option<String>> = std::sync::Mutex::new(None);
@@ -38,6 +42,8 @@ fn child_run(case: &AnyCase) -> String {
     let t0 = real_ms();
     let seed = match case {
         AnyCase::Dur(c) => c.seed,
+        AnyCase::Conc(c) => c.seed,
+        AnyCase::Hsc(c) => c.seed,
     };
     simsys::reset_thread_ordinals();
     simsys::enable(simsys::SimConfig { root: dur::root_dir(), seed });
@@ -55,6 +61,8 @@ fn child_run(case: &AnyCase) -> String {
         .stack_size(64 << 20)
         .spawn(move || match &case2 {
             AnyCase::Dur(c) => serde_json::to_string(&dur::exec(c)).expect("serialise outcome"),
+            AnyCase::Conc(c) => serde_json::to_string(&conc::exec(c)).expect("serialise outcome"),
+            AnyCase::Hsc(c) => serde_json::to_string(&hsc::exec(c)).expect("serialise outcome"),
         })
         .expect("spawn scenario thread");
     let out = match h.join() {
@@ -101,6 +109,16 @@ fn main() {
                     "c11enum" => AnyCase::Dur(gen::c11_enum(i, 5, if p1 == 0 { 10000 } else { p1 as usize })),
                     "c12" => AnyCase::Dur(gen::c12_random(run_seed)),
                     "c13" => AnyCase::Dur(gen::c13_history(run_seed)),
+                    "c32" => AnyCase::Hsc(gen::c32_case(run_seed)),
+                    "c33" => AnyCase::Hsc(gen::c33_case(run_seed)),
+                    "c10" => AnyCase::Hsc(gen::c10_case(run_seed)),
+                    "c18" => AnyCase::Hsc(gen::c18_case(run_seed, 0)),
+                    "c04" => AnyCase::Hsc(gen::c18_case(run_seed, 1)),
+                    "c15p" => AnyCase::Conc(gen::c15_persist(run_seed)),
+                    "c15e" => AnyCase::Conc(gen::conc_engine(run_seed, 0)),
+                    "c20" => AnyCase::Conc(gen::conc_engine(run_seed, 1)),
+                    "c17b" => AnyCase::Conc(gen::conc_engine(run_seed, 2)),
+                    "c19b" => AnyCase::Conc(gen::conc_engine(run_seed, 3)),
                     "c14" => AnyCase::Dur(gen::c14_base(run_seed)),
                     "c16" => AnyCase::Dur(gen::c16_history(run_seed)),
                     "c17" => AnyCase::Dur(gen::c17_history(run_seed)),
